@@ -5,6 +5,7 @@ import progen
 import compilers
 from props.c02 import resigil
 from props import c03_env
+from props import c03_reroot
 
 LEVEL = "proof"
 
@@ -38,13 +39,24 @@ def run(chk):
                        "byte-identical to Lang/ClassicEnv.lean; oracle: (mod PAT NAME) and (mod PAT (defconstant KK 1000) "
                        "(c KK NAME)) run by clvmr on a fitted argument tree return the bound value; programs with 0..12 used "
                        "constants/functions (functions using constants and earlier functions) + unused ones return the "
-                       "value every helper denotes")
+                       "value every helper denotes.  "
+                       "Re-rooting part (props/c03_reroot.py): nested (a (mod PARAMS BODY) ARG) with 5..18 flat inner "
+                       "parameters or one name 5..16 first/rest steps down a destructuring pattern, BODY over the LAST "
+                       "parameters (+, c, if, list, =, nested), ARG a parameter of the outer program or a first/rest chain "
+                       "of one; oracle Lang.evalSrc on the lambda twin and the cl21 build.  Inline-capture part: classic "
+                       "defun-inline with 1..3 parameters, one of them destructured and holding an (@ name pat) capture 1..3 "
+                       "levels down (also inside another capture, under an explicit top-level capture, and — control — at "
+                       "top level), the capture name used in the body; oracle Lang.evalSrc, the cl21 build and the defun twin. "
+                       "Failures of both parts are only listed as known when the compiled result equals what the "
+                       "defect's mechanism predicts (computed by Lang.evalSrc on a rewritten program)")
     ok, out = lib.build_harness()
     if not ok:
         chk.fail("proof", "harness-build", {}, out[-1500:])
         return
     # environment layout of the classic compiler: model = real code (byte identity) + oracle
     c03_env.run(chk, 700 if quick else 20000, 250 if quick else 8000)
+    # source forms that re-root the environment / inline functions with captures below the top level
+    c03_reroot.run(chk, 150 if quick else 4000, 90 if quick else 2500)
     n = 250 if quick else 8000
     progs = compilers.gen_programs(rng, "classic", n, nargs=3, features=None)
     for p in progs:
